@@ -85,7 +85,19 @@ def table_case(case, acc, ctx, keys):
         data = sut.create_mem(minimal_desc(7, payload={"#p": "0011"}))
         inp, out = os.path.join(d, "in.suit"), os.path.join(d, "out.suit")
         old_key = f"{fam_of(alg)}_1"
-        if state == "signed":
+        if state == "signed-same-key":
+            # already signed with the very key / key id / algorithm that signs again (a signing step run twice): with EdDSA the new
+            # block is byte-identical to the old one
+            first = os.path.join(d, "first.suit")
+            with open(first, "wb") as fh:
+                fh.write(data)
+            sut.sign_single(first, inp, f"{keyfam}_0", 0x22, alg, keys.dir)
+            with open(inp, "rb") as fh:
+                data = fh.read()
+            if n_blocks(data) != 1:
+                raise Violation(f"signing an unsigned envelope ({alg}) produced {n_blocks(data)} signatures", "exactly one new signature")
+            state = "signed"
+        elif state == "signed" and case["state"] == "signed":
             first = os.path.join(d, "first.suit")
             with open(first, "wb") as fh:
                 fh.write(data)
@@ -108,7 +120,7 @@ def table_case(case, acc, ctx, keys):
             raise
         except Exception as e:
             raised = e
-        acc.case(nt_key=("table", state, action, alg, keyfam), classes=["table", f"state:{state}", f"action:{action}", "key:match" if matching else "key:mismatch"],
+        acc.case(nt_key=("table", case["state"], action, alg, keyfam), classes=["table", f"state:{case['state']}", f"action:{action}", "key:match" if matching else "key:mismatch"],
                  sample=case, sample_key=f"table/{state}/{action}/{'m' if matching else 'x'}")
         wrote = os.path.exists(out)
         outb = open(out, "rb").read() if wrote else None
@@ -157,6 +169,9 @@ def table_cases():
             for alg in CO.ALGS:
                 for keyfam in FAMS:
                     yield {"state": state, "action": action, "alg": alg, "keyfam": keyfam}
+    for action in ("error", "skip", "remove-old"):
+        for alg in CO.ALGS:
+            yield {"state": "signed-same-key", "action": action, "alg": alg, "keyfam": fam_of(alg)}
 
 
 # ------------------------------------------------------------------------------------------------
